@@ -173,7 +173,7 @@ Fixpoint render (d : dialect) (n : node) : list tok :=
   match n with
   | NField c => [TCol c]
   | NAtom a => atom_toks a
-  | NList l => seq_repr (map atom_toks l)
+  | NList l => seq_repr (map (render d) l)
   | NSelect k => [TSub k]
   | NSQLOp op a b => sqlop_repr (optoks op) (render d a) (render d b)
   | NSQLModulo a b =>
@@ -192,7 +192,7 @@ Fixpoint g_render (d : dialect) (n : node) : list tok :=
   match n with
   | NField c => [TCol c]
   | NAtom a => g_atom_toks d a
-  | NList l => gen_seq_repr d (map (g_atom_toks d) l)
+  | NList l => gen_seq_repr d (map (g_render d) l)
   | NSelect k => [TSub k]
   | NSQLOp op a b => gen_sqlop_repr d false (optoks op) (g_render d a) (g_render d b)
   | NSQLModulo a b => gen_modulo_repr d [TOp BMod] (g_render d a) (g_render d b)
@@ -413,6 +413,7 @@ Fixpoint cols_in (cols : list col) (n : node) : bool :=
   | NField c => existsb (col_eqb c) cols
   | NSQLOp _ a b | NSQLModulo a b | NSQLCall2 _ a b | NINSubquery _ a b => cols_in cols a && cols_in cols b
   | NSQLPrefix _ a => cols_in cols a
+  | NList l => forallb (cols_in cols) l
   | _ => true
   end.
 
@@ -431,7 +432,7 @@ Inductive sx :=
 | SBin (o : binop) (a b : sx)
 | SNeg (a : sx) | SPos (a : sx) | SNot (a : sx)
 | SIsNull (neg : bool) (a : sx)                   (* a IS [NOT] NULL *)
-| SIn (neg : bool) (a : sx) (l : list atom)       (* a [NOT] IN (literal, ...) *)
+| SIn (neg : bool) (a : sx) (l : list sx)         (* a [NOT] IN (expression, ...) *)
 | SInSub (neg : bool) (a : sx) (k : N)            (* a [NOT] IN (subquery k) *)
 | SBad.
 
@@ -454,37 +455,19 @@ Arguments POk {A}. Arguments PErr {A}. Arguments PFuel {A}.
 Definition pbind {A B} (m : pres A) (k : A -> pres B) : pres B :=
   match m with POk a => k a | PErr => PErr | PFuel => PFuel end.
 
-(* IN lists of literals *)
-Definition item_of (ts : list tok) : option (atom * list tok) :=
-  match ts with
-  | TNum z :: r => Some (AInt z, r)
-  | TOp BSub :: TNum z :: r => Some (AInt (- z), r)
-  | TStr s :: r => Some (AStr s, r)
-  | TNull :: r => Some (ANone, r)
-  | _ => None
-  end.
-Fixpoint items_tl (ts : list tok) : list atom * list tok :=
-  match ts with
-  | TComma :: TNum z :: r => let (l, r') := items_tl r in (AInt z :: l, r')
-  | TComma :: TOp BSub :: TNum z :: r => let (l, r') := items_tl r in (AInt (- z) :: l, r')
-  | TComma :: TStr s :: r => let (l, r') := items_tl r in (AStr s :: l, r')
-  | TComma :: TNull :: r => let (l, r') := items_tl r in (ANone :: l, r')
-  | _ => ([], ts)
-  end.
-Definition items (ts : list tok) : list atom * list tok :=
-  match item_of ts with
-  | Some (a, r) => let (l, r') := items_tl r in (a :: l, r')
-  | None => ([], ts)
-  end.
-(* what follows "IN (" *)
+(* what follows "IN (": a subquery, nothing, or a comma-separated list of
+   expressions (read by `its`, the parser's own item reader) *)
 Definition in_tail (neg : bool) (lhs : sx) (r : list tok)
+           (its : list tok -> pres (list sx * list tok))
            (k : sx -> list tok -> pres (sx * list tok)) : pres (sx * list tok) :=
   match r with
   | TSub q :: TRP :: r' => k (SInSub neg lhs q) r'
-  | _ => match items r with
-         | (l, TRP :: r') => k (SIn neg lhs l) r'
-         | _ => PErr
-         end
+  | TRP :: r' => k (SIn neg lhs []) r'
+  | _ => pbind (its r) (fun y =>
+           match snd y with
+           | TRP :: r' => k (SIn neg lhs (fst y)) r'
+           | _ => PErr
+           end)
   end.
 
 Section Parser.
@@ -548,11 +531,22 @@ Section Parser.
         | TIs :: TNot :: TNull :: r =>
             if Nat.leb minp (p_is pt) then loop f' minp (SIsNull true lhs) r else POk (lhs, ts)
         | TIn :: TLP :: r =>
-            if Nat.leb minp (p_in pt) then in_tail false lhs r (loop f' minp) else POk (lhs, ts)
+            if Nat.leb minp (p_in pt) then in_tail false lhs r (items f') (loop f' minp) else POk (lhs, ts)
         | TNot :: TIn :: TLP :: r =>
-            if Nat.leb minp (p_in pt) then in_tail true lhs r (loop f' minp) else POk (lhs, ts)
+            if Nat.leb minp (p_in pt) then in_tail true lhs r (items f') (loop f' minp) else POk (lhs, ts)
         | _ => POk (lhs, ts)
         end
+    end
+  (* expression {, expression} *)
+  with items (f : nat) (ts : list tok) {struct f} : pres (list sx * list tok) :=
+    match f with
+    | O => PFuel
+    | S f' =>
+        pbind (parse f' O ts) (fun x =>
+          match snd x with
+          | TComma :: r => pbind (items f' r) (fun y => POk (fst x :: fst y, snd y))
+          | _ => POk ([fst x], snd x)
+          end)
     end.
 End Parser.
 
@@ -581,7 +575,7 @@ Fixpoint denote (n : node) : sx :=
   | NSQLOp (OB o) a b => SBin o (denote a) (denote b)
   | NSQLOp OIs a (NAtom ANone) => SIsNull false (denote a)
   | NSQLOp OIsNot a (NAtom ANone) => SIsNull true (denote a)
-  | NSQLOp OIn a (NList l) => SIn false (denote a) l
+  | NSQLOp OIn a (NList l) => SIn false (denote a) (map denote l)
   | NSQLModulo a b => SBin BMod (denote a) (denote b)
   | NSQLCall2 FMod a b => SBin BMod (denote a) (denote b)
   | NSQLPrefix PNeg a => SNeg (denote a)
@@ -679,7 +673,7 @@ Fixpoint eval3 (E : env) (e : sx) : val :=
   | SPos a => v_pos (eval3 E a)
   | SNot a => v_not (eval3 E a)
   | SIsNull neg a => v_isnull neg (eval3 E a)
-  | SIn neg a l => v_in neg (eval3 E a) (map atom_val l)
+  | SIn neg a l => v_in neg (eval3 E a) (map (eval3 E) l)
   | SInSub neg a k => v_in neg (eval3 E a) (e_sub E k)
   | SBad => VNull
   end.
@@ -692,7 +686,7 @@ Fixpoint evaln (E : env) (n : node) : val :=
   | NSQLOp (OB o) a b => v_bin o (evaln E a) (evaln E b)
   | NSQLOp OIs a (NAtom ANone) => v_isnull false (evaln E a)
   | NSQLOp OIsNot a (NAtom ANone) => v_isnull true (evaln E a)
-  | NSQLOp OIn a (NList l) => v_in false (evaln E a) (map atom_val l)
+  | NSQLOp OIn a (NList l) => v_in false (evaln E a) (map (evaln E) l)
   | NSQLModulo a b => v_bin BMod (evaln E a) (evaln E b)
   | NSQLCall2 FMod a b => v_bin BMod (evaln E a) (evaln E b)
   | NSQLPrefix PNeg a => v_neg (evaln E a)
@@ -719,8 +713,6 @@ Definition kind (o : binop) : opkind :=
   | BAnd | BOr => KLogic
   | _ => KCmp
   end.
-Definition in_list_ok (x : ity) (l : list atom) : bool :=
-  existsb (fun t => ity_is x t && forallb (fun c => ity_is (atom_ity c) t) l) [TyNum; TyStr].
 Definition is_list (n : node) : bool := match n with NList _ => true | _ => false end.
 
 Fixpoint infer (n : node) : option ity :=
@@ -740,7 +732,11 @@ Fixpoint infer (n : node) : option ity :=
       end
   | NSQLOp OIn a b =>
       match infer a, b with
-      | Some x, NList l => if in_list_ok x l then Some (ITy TyBool) else None
+      | Some x, NList l =>
+          if existsb (fun t => ity_is x t &&
+                               forallb (fun c => match infer c with Some y => ity_is y t | None => false end) l)
+                     [TyNum; TyStr]
+          then Some (ITy TyBool) else None
       | _, _ => None
       end
   | NSQLOp _ a b =>
@@ -781,7 +777,7 @@ Fixpoint wf (n : node) : bool :=
   | NField _ | NAtom _ => true
   | NList _ | NSelect _ | NBad => false
   | NSQLOp (OB _) a b => wf a && wf b
-  | NSQLOp OIn a b => wf a && is_list b
+  | NSQLOp OIn a b => wf a && match b with NList l => forallb wf l | _ => false end
   | NSQLOp _ a b => wf a && is_none b
   | NSQLModulo a b | NSQLCall2 _ a b => wf a && wf b
   | NSQLPrefix PNot a => wf a
@@ -798,6 +794,7 @@ Definition closed_insub (d : dialect) (n : node) : bool :=
 Fixpoint safe (pt : ptable) (d : dialect) (n : node) : bool :=
   match n with
   | NSQLOp (OB _) a b | NSQLModulo a b | NSQLCall2 _ a b => safe pt d a && safe pt d b
+  | NSQLOp OIn a b => safe pt d a && match b with NList l => forallb (safe pt d) l | _ => true end
   | NSQLOp _ a b => safe pt d a
   | NSQLPrefix PNot a =>
       safe pt d a && (if is_insub a && negb (closed_insub d a) then Nat.leb (p_not pt) (p_in pt) else true)
@@ -811,6 +808,7 @@ Fixpoint no_subquery (n : node) : bool :=
   | NSQLOp _ a b | NSQLModulo a b | NSQLCall2 _ a b => no_subquery a && no_subquery b
   | NSQLPrefix _ a => no_subquery a
   | NINSubquery _ _ _ | NSelect _ => false
+  | NList l => forallb no_subquery l
   | _ => true
   end.
 
